@@ -32,6 +32,33 @@ WRun(scr, e, on, inp) ==
          [] st.k = "evalerr" -> [ok |-> FALSE]
          [] st.k = "nonportable" -> bindout(st.n, FnV)          \* accepted here: the check is the CLI's
          [] st.k = "plain"  -> WRun(Tail(scr), e, on, inp)
+\* ------------------------------------------------------------------ evaluate_inline_expressions(texts, inputs)
+(* Every text is evaluated on its own: a fresh scope in which each given input is bound under its own name as well as inside   *)
+(* `inputs`; only the first statement of a text counts; the answer is that statement's value, or an error.  Nothing one text   *)
+(* binds is visible to the next.  Statement kinds beyond Cli.tla's pool:                                                       *)
+(*   direct(key): the text `key`        shadowin(key): `key = 5` (refused when an input of that name was given)                *)
+(*   two(n):      `n = 6` newline `output n` (the second line is never looked at)     blank: only a comment                      *)
+InlinePool == StmtPool \cup {S("direct", "", "a"), S("direct", "", "b"), S("direct", "", "zz"), S("shadowin", "", "a"), S("shadowin", "", "zz"),
+                            S("two", "x", 0), S("blank", "", 0)}
+InlineOne(st, inp) ==
+  LET InW(key) == IF key \in InputNames /\ inp[key] # Unb THEN inp[key] ELSE NullV
+      given(key) == key \in InputNames /\ inp[key] # Unb
+      Ans(v) == [ok |-> TRUE, v |-> v]
+      NoAns == [ok |-> FALSE] IN
+  CASE st.k \in {"outin", "outref"} -> Ans(InW(st.x))
+    [] st.k = "outlit"  -> Ans(IntV(st.x))
+    [] st.k = "refs"    -> Ans(ListV(<<InW("a"), InW("a"), InW("zz"), InW("zz")>>))
+    [] st.k \in {"refsdo", "refsfn"} -> Ans(ListV(<<IntV(9), IntV(9), NullV>>))
+    [] st.k = "bind"    -> Ans(IntV(st.x))
+    [] st.k = "out"     -> NoAns                      \* nothing is bound in a fresh scope
+    [] st.k \in {"evalerr", "parseerr", "blank"} -> NoAns
+    [] st.k = "nonportable" -> Ans(FnV)
+    [] st.k = "plain"   -> Ans(IntV(2))
+    [] st.k = "direct"  -> IF given(st.x) THEN Ans(inp[st.x]) ELSE NoAns
+    [] st.k = "shadowin" -> IF given(st.x) THEN NoAns ELSE Ans(IntV(5))
+    [] st.k = "two"     -> Ans(IntV(6))
+InlineResult(sts, inp) == [i \in 1..Len(sts) |-> InlineOne(sts[i], inp)]
+
 WasmResult(scr, inp) ==
   IF \E i \in 1..Len(scr) : scr[i].k = "parseerr" THEN [ok |-> FALSE]
   ELSE WRun(scr, [n \in OutNames |-> Unb], <<>>, inp)
